@@ -169,6 +169,8 @@ def run(ctx, repo):
     ctx.rule('R6', 'the documented speed limits (11 m/s up to 400 m, 10 m/s beyond, 0.5 m/s minimum for all) are raise-guards; the slow limit is independent of the distance class')
     ctx.rule('R7', "the value checked is the value printed: a float returned through '%.Nf' is rounded to N decimals before the guards, the "
                    'derived quantities (duration, speed) and the format read it; raw guards have a counterpart after the rounding')
+    ctx.rule('R8', 'no text the timed arm can return (format string -> regular language, pushed through the trailing-zero stripping) lies in the '
+                   'trigger language of an input fix-up that applies to the same event (a returned value validates to itself)')
     ctx.rule('R5', 'the timed arm refuses seconds >= 60 under minutes and minutes >= 60 under hours with errorKlass')
     # ---- R1
     n_conv = 0
@@ -392,4 +394,16 @@ def run(ctx, repo):
                     {'P1': "100 m '9.094' -> '9.09' -> refused as too fast; 800 m '1:59.996' -> '1:60' -> refused"}.get(rule))
     if not probs:
         ctx.ok('R7', '%d float formats: the formatted values are rounded before every guard and derived quantity on the paths to the format' % n_fmt)
+
+    # ---- R8 the returned texts are not re-interpreted by the function's own input fix-ups (regular languages, sa/reread.py)
+    from .. import reread
+    probs8, n_out, n_fix = reread.analyse(P, fn, R, params[1])
+    ctx.count('output formats modelled as regular languages', n_out)
+    ctx.count('input fix-ups with an event condition', n_fix)
+    ctx.floor('output formats modelled', n_out, 3)
+    ctx.floor('input fix-ups examined', n_fix, 4)
+    for key, msg, w in probs8:
+        ctx.finding('R8', '%s::%s::%s' % (UTILS, FN, key), UTILS, fn.lineno, msg, w)
+    if not probs8:
+        ctx.ok('R8', '%d output formats x %d fix-ups: no returned text lies in the trigger language of a fix-up of the same event' % (n_out, n_fix))
 
